@@ -108,3 +108,6 @@ pub fn contract_named_number_lookup<C: Ctx>(cx: &mut C) {
     #[cfg(kani)]
     { let _ = cx; }
 }
+
+#[cfg(not(kani))]
+pub fn hook_octet_string_to_bit_string(bytes: &[u8]) -> Vec<bool> { octet_string_to_bit_string(bytes) }
